@@ -4,7 +4,7 @@ import Wal.Model.Wire
 # C08 — the global statement, for the restricted evaluator
 
 `Opt.evalF` is the model evaluator with dynamic checks that stop an evaluation (outcome `unsupported`) when it
-* executes `fn`, `defsig`, `defmacro`, `groups` or `array` on operands that the pass would rewrite (these forms store
+* executes `fn`, `defsig`, `defmacro` or `array` on operands that the pass would rewrite (these forms store
   their operands or read them as syntax: the two runs would hold different code),
 * executes `reval` / `all-scopes` on an expression operand that is not an expression form after the pass,
 * executes a constant product with a non-integer factor (`1 * x = x` on floats is IEEE-754, not provable in Lean),
